@@ -389,7 +389,7 @@ func runC17(r *Report) {
 					atCap = true
 				}
 			}
-			locked := ls.Held(evict.(ssa.Instruction), "mu") == "W"
+			locked := r.held(ls, evict.(ssa.Instruction), sessPkg, "ClientRegistry", "mu") == "W"
 			var ins ssa.Instruction
 			Instrs(rg, func(in ssa.Instruction) {
 				if mu, isM := in.(*ssa.MapUpdate); isM {
